@@ -283,8 +283,23 @@ class StoreBackendMixin(object):
 
         if func_code is not None:
             filename = os.path.join(func_path, "func_code.py")
-            with self._open_item(filename, "wb") as f:
-                f.write(func_code.encode("utf-8"))
+            try:
+                with self._open_item(filename, "wb") as f:
+                    f.write(func_code.encode("utf-8"))
+            except FileNotFoundError:
+                # The location has been deleted since it was created above,
+                # e.g. by another process clearing the cache: create it again.
+                try:
+                    self.create_location(func_path)
+                    with self._open_item(filename, "wb") as f:
+                        f.write(func_code.encode("utf-8"))
+                except FileNotFoundError as e:
+                    warnings.warn(
+                        "Unable to store the function code. Possibly a race "
+                        "condition with another process clearing the cache. "
+                        f"Exception: {e}.",
+                        CacheWarning,
+                    )
 
     def get_cached_func_code(self, call_id):
         """Store the code of the cached function."""
